@@ -271,6 +271,62 @@ fn ref_header(cmd: u8, src: SocketAddr, dst: SocketAddr) -> Vec<u8> {
     v
 }
 
+/// Independent reading of the PROXY v2 wire format (written from the specification, not from the
+/// code under test and not from the Coq model).
+#[derive(Debug, PartialEq)]
+enum RefParse {
+    /// a proper prefix of something that can still become a valid header
+    Short,
+    /// can never become a valid header
+    Bad,
+    /// the declared block is shorter than the address family needs (verdict left open)
+    Odd,
+    /// complete: consumed, command bit, family byte, (src, dst, sport, dport) when an address family is present
+    Full(usize, u8, u8, Option<(Vec<u8>, Vec<u8>, u16, u16)>),
+}
+
+fn ref_parse(i: &[u8]) -> RefParse {
+    let n = i.len().min(12);
+    if i[..n] != SIG[..n] {
+        return RefParse::Bad;
+    }
+    if i.len() < 13 {
+        return RefParse::Short;
+    }
+    if i[12] != 0x20 && i[12] != 0x21 {
+        return RefParse::Bad;
+    }
+    if i.len() < 14 {
+        return RefParse::Short;
+    }
+    let fam = i[13];
+    if (fam >> 4) > 2 {
+        // rejected as soon as the block is complete; before that the verdict may still be "incomplete"
+        if i.len() < 16 {
+            return RefParse::Short;
+        }
+        let l = (i[14] as usize) << 8 | i[15] as usize;
+        return if i.len() < 16 + l { RefParse::Odd } else { RefParse::Bad };
+    }
+    if i.len() < 16 {
+        return RefParse::Short;
+    }
+    let l = (i[14] as usize) << 8 | i[15] as usize;
+    let need = match fam >> 4 { 1 => 12, 2 => 36, _ => 0 };
+    if l < need {
+        return RefParse::Odd;
+    }
+    if i.len() < 16 + l {
+        return RefParse::Short;
+    }
+    let a = match fam >> 4 {
+        1 => Some((i[16..20].to_vec(), i[20..24].to_vec(), u16::from_be_bytes([i[24], i[25]]), u16::from_be_bytes([i[26], i[27]]))),
+        2 => Some((i[16..32].to_vec(), i[32..48].to_vec(), u16::from_be_bytes([i[48], i[49]]), u16::from_be_bytes([i[50], i[51]]))),
+        _ => None,
+    };
+    RefParse::Full(16 + l, i[12] & 1, fam, a)
+}
+
 fn codec_op(op: &Op, out: &mut Out) {
     let a = &op.args;
     match op.name.as_str() {
@@ -299,7 +355,34 @@ fn codec_op(op: &Op, out: &mut Out) {
         }
         "parse" => {
             let i = a[0].b();
-            match parse_v2_header(i) {
+            let reference = ref_parse(i);
+            let real = parse_v2_header(i);
+            let agree = match (&reference, &real) {
+                (RefParse::Odd, _) => true,
+                (RefParse::Short, Err(nom::Err::Incomplete(_))) => true,
+                (RefParse::Bad, Err(nom::Err::Error(_))) | (RefParse::Bad, Err(nom::Err::Failure(_))) => true,
+                (RefParse::Full(consumed, cmd, fam, addr), Ok((rest, h))) => {
+                    let got_addr = match &h.addr {
+                        ProxyAddr::Ipv4Addr { src_addr, dst_addr } => Some((src_addr.ip().octets().to_vec(), dst_addr.ip().octets().to_vec(), src_addr.port(), dst_addr.port())),
+                        ProxyAddr::Ipv6Addr { src_addr, dst_addr } => Some((src_addr.ip().octets().to_vec(), dst_addr.ip().octets().to_vec(), src_addr.port(), dst_addr.port())),
+                        _ => None,
+                    };
+                    i.len() - rest.len() == *consumed && *rest == &i[*consumed..]
+                        && (matches!(h.command, Command::Proxy) as u8) == *cmd && h.family == *fam && got_addr == *addr
+                }
+                _ => false,
+            };
+            if !agree {
+                out.viol(
+                    "codec-verdict",
+                    &format!(
+                        "parse_v2_header on {} byte(s) {:02x?}: the wire format says {:?}, the parser says {}",
+                        i.len(), &i[..i.len().min(20)], reference,
+                        match &real { Ok((r, h)) => format!("Ok(rest {} bytes, {:?})", r.len(), h), Err(nom::Err::Incomplete(_)) => "Incomplete".to_string(), Err(_) => "Error".to_string() }
+                    ),
+                );
+            }
+            match real {
                 Ok((rest, h)) => {
                     let consumed = i.len() - rest.len();
                     let declared = 16 + ((i[14] as usize) << 8 | i[15] as usize);
@@ -703,6 +786,17 @@ impl Env {
         let is_pipe_phase = self.mode == "pipe" || s.taken.len() > 0;
         let _ = is_pipe_phase;
         if !in_pipe {
+            // a well-formed header, however fragmented, must never close the session
+            if (self.mode == "expect" || self.mode == "relay") && !self.front_eof && !s.rerr && !self.peer_eof && !self.peer_closed && !self.close_cause_error {
+                let fits = self.front_sent.len() < 16 || 16 + ((self.front_sent[14] as usize) << 8 | self.front_sent[15] as usize) <= 232;
+                match ref_parse(&self.front_sent) {
+                    RefParse::Short | RefParse::Full(..) if fits => out.viol(
+                        "valid-header-closed",
+                        &format!("mode {}: the session closed although the {} byte(s) received so far are {} well-formed PROXY v2 header", self.mode, self.front_sent.len(), if matches!(ref_parse(&self.front_sent), RefParse::Short) { "the beginning of a" } else { "a complete" }),
+                    ),
+                    _ => {}
+                }
+            }
             // closed during the header phase (bad/oversized/absent header, HUP): nothing may have been forwarded
             // beyond a complete relayed header
             if self.mode == "expect" && !self.back_got.is_empty() {
